@@ -52,6 +52,9 @@ func (v *Vote) Builder() *protocol.ViewChangeMessageContentBuilder {
 func NVHeaderBuilder(typ MT, inst, h, v uint64, votes []*Vote) *protocol.NewViewHeaderBuilder {
 	hb := &protocol.NewViewHeaderBuilder{MessageType: typ, InstanceId: primitives.InstanceId(inst), BlockHeight: primitives.BlockHeight(h), View: primitives.View(v)}
 	for _, vt := range votes {
+		if vt == nil {
+			continue
+		}
 		if vt.Raw != nil && vt.keepRaw {
 			hb.ViewChangeConfirmations = append(hb.ViewChangeConfirmations, protocol.ViewChangeMessageContentBuilderFromRaw(vt.Raw))
 		} else {
